@@ -22,6 +22,8 @@ pub enum V {
     Rec(BTreeMap<String, V>),
     /// a floating-point value (sign tests, comparisons)
     F(f64),
+    /// an enum variant with a payload: `Name(a, b)` (positional) or `Name { f: a }` (one record payload)
+    Ctor(String, Vec<V>),
 }
 
 pub struct Machine<'a> {
@@ -180,6 +182,7 @@ impl<'a> Machine<'a> {
             syn::Pat::Path(p) => {
                 let name = sm::tsc(&p.path);
                 match v {
+                    V::Ctor(cn, payload) if payload.is_empty() => Ok(*cn == name || cn.ends_with(&format!("::{}", name)) || name.ends_with(&format!("::{}", cn))),
                     V::Enum(e) => Ok(e == &name || e.ends_with(&format!("::{}", name)) || name.ends_with(&format!("::{}", e))),
                     V::Opt(None) => Ok(name == "None"),
                     _ => Ok(false),
@@ -207,6 +210,24 @@ impl<'a> Machine<'a> {
                     return Ok(v_is_err);
                 }
                 match v {
+                    V::Ctor(cn, payload) => {
+                        let same = *cn == name || cn.ends_with(&format!("::{}", name)) || name.ends_with(&format!("::{}", cn));
+                        if !same {
+                            return Ok(false);
+                        }
+                        if ts.elems.len() == 1 && matches!(ts.elems[0], syn::Pat::Rest(_) | syn::Pat::Wild(_)) {
+                            return Ok(true);
+                        }
+                        if ts.elems.len() != payload.len() {
+                            return Ok(false);
+                        }
+                        for (pp, vv) in ts.elems.iter().zip(payload) {
+                            if !self.pat_matches(pp, vv)? {
+                                return Ok(false);
+                            }
+                        }
+                        Ok(true)
+                    }
                     V::Opt(Some(inner)) if name == "Some" && ts.elems.len() == 1 => self.pat_matches(&ts.elems[0], inner),
                     V::Enum(e) => {
                         // Variant(_) patterns on payload-less abstract enums: compare names, ignore payload
@@ -220,6 +241,25 @@ impl<'a> Machine<'a> {
                 // Variant { .. } on abstract enums: compare names, ignore fields
                 let name = sm::tsc(&ps.path);
                 match v {
+                    V::Ctor(cn, payload) => {
+                        let same = *cn == name || cn.ends_with(&format!("::{}", name)) || name.ends_with(&format!("::{}", cn));
+                        if !same {
+                            return Ok(false);
+                        }
+                        let Some(V::Rec(fields)) = payload.first() else { return Ok(true) };
+                        for fp in &ps.fields {
+                            let fname = sm::ts(&fp.member);
+                            match fields.get(&fname) {
+                                Some(fv) => {
+                                    if !self.pat_matches(&fp.pat, &fv.clone())? {
+                                        return Ok(false);
+                                    }
+                                }
+                                None => return Ok(false),
+                            }
+                        }
+                        Ok(true)
+                    }
                     V::Enum(e) => {
                         let base = e.split(['(', '{']).next().unwrap_or("");
                         Ok(base == name || base.ends_with(&format!("::{}", name)) || name.ends_with(&format!("::{}", base)))
@@ -984,6 +1024,7 @@ pub fn show_term(v: &V) -> String {
         V::List(t) => format!("[{}]", t.iter().map(show_term).collect::<Vec<_>>().join(",")),
         V::Rec(m) => format!("{{{}}}", m.iter().map(|(k, v)| format!("{}:{}", k, show_term(v))).collect::<Vec<_>>().join(",")),
         V::F(x) => format!("{:?}", x),
+        V::Ctor(n, p) => format!("{}({})", n, p.iter().map(show_term).collect::<Vec<_>>().join(",")),
     }
 }
 
